@@ -115,6 +115,15 @@ def gen_exponentiate(tu):
                         calls.append(args[0] is args[1])
                     er.raw = True
                     oc = {x: er for x in tu.by_qname if x.startswith("exponentiate_restrict(")}
+                    unmet = []
+
+                    def gt_only(I_, f_, this, args):
+                        # contract of the target-group fast paths (C07): requires a in the order-r subgroup; ensures this == a^(k mod r).
+                        # `exponentiate` is specified for EVERY field element, so its body cannot establish that precondition.
+                        unmet.append(f_.qname)
+                        this.val = I_.dom.val(args[0]).scale(I_.dom.sval(args[1]))
+                    gt_only.raw = True
+                    oc.update({x: gt_only for x in tu.by_qname if x.startswith("Fq12::exponentiate_gt")})
                     dom = ExpoDomain([F], consts=U.SHARED.get("consts"), obj_contracts=oc)
                     I = Interp(tu, dom)
                     I.path = path
@@ -125,7 +134,9 @@ def gen_exponentiate(tu):
                     k.val = Poly.var("k")
                     I.call(f, None, [res, a, k], force_body=True)
                     return [lin_eq("exponentiate%s: res == a^k" % (" (res aliases a)" if alias else ""), res.val, Lin.gen("a").scale(Poly.var("k"))),
-                            ("the __restrict callee is given distinct objects", "ok" if calls == [False] else "fail", repr(calls), None)]
+                            ("the __restrict callee is given distinct objects", "ok" if calls == [False] else "fail", repr(calls), None),
+                            ("every callee's precondition is established for an arbitrary field element", "ok" if not unmet else "fail",
+                             "calls %s, whose contract requires an element of the order-r target group" % ", ".join(unmet), None)]
                 yield q[:50] + (" [res=a]" if alias else ""), guarded(run)
 
 
@@ -202,9 +213,53 @@ def gen_cyclotomic(tu):
     yield "exponent view", guarded(run)
 
 
+def _replay_exponentiate(rec, unit, result, fresh, tu, wd, cx):
+    """native: the real unqualified call exponentiate(res, a, k) -- resolved by the compiler exactly as at a caller's site -- against repeated F::multiply,
+    for the field type and exponent width named in the refuted obligation; a is an element with 2 in its first and last base-field coordinate"""
+    import re, replay as R_
+    m = None
+    for f in fresh:
+        m = re.search(r"\[exponentiate(?:_restrict)?\((\w+) &, const \w+ &, const BigInt<(\d+)", str(f[0]))
+        if m:
+            break
+    if not m:
+        return False
+    F, bits = m.group(1), int(m.group(2))
+    if bits < 64:
+        bits = {"Fq": 384, "Fr": 256}.get(F, 256)      # the label is abbreviated; every instantiated width of this field type is tried below
+    widths = sorted({int(x) for q in tu.by_qname for x in re.findall(r"^exponentiate(?:_restrict)?\(%s &, const %s &, const BigInt<(\d+)>" % (F, F), q)}) or [bits]
+    base = "Fr" if F == "Fr" else "Fq"
+    ks = [5, 0x1234567, (1 << 61) - 1]
+    lines = [R_.unity_source(), "#include <stdio.h>", "#include <string.h>", "using namespace embedded_pairing; using namespace embedded_pairing::core; using namespace embedded_pairing::bls12_381;",
+             "template <typename T> static void ref_pow(T& r, const T& a, uint64_t k){ r.copy(T::one); for (int i = 63; i >= 0; i--) { T t; t.multiply(r, r); r.copy(t); if ((k >> i) & 1) { t.multiply(r, a); r.copy(t); } } }",
+             "int main(){ %s two; two.add(%s::one, %s::one); %s a; a.copy(%s::one); a.add(a, a); memcpy((char*)&a + sizeof(%s) - sizeof(%s), &two, sizeof(%s));" % (base, base, base, F, F, F, base, base)]
+    n = 0
+    for w in widths:
+        for k in ks:
+            lines.append("  { BigInt<%d> k; memset(&k, 0, sizeof k); uint64_t kv = %dULL; memcpy(&k, &kv, 8); %s got, want; exponentiate(got, a, k); ref_pow(want, a, kv); printf(\"r%d %%d\\n\", memcmp(&got, &want, sizeof got) == 0 ? 1 : 0); }" % (w, k, F, n))
+            n += 1
+    lines.append("  return 0; }")
+    native, err = R_.run_native("\n".join(lines), wd, "exponentiate_native")
+    rec["native_driver_error"] = err
+    if native is None:
+        return False
+    n = 0
+    for w in widths:
+        for k in ks:
+            if native.get("r%d" % n) == [0]:
+                rec["native_finding"] = "real code: exponentiate(res, a, k) with a in %s (coordinates 2, 0, ..., 0, 2), k = %d held in a BigInt<%d> differs from the product of k copies of a (F::multiply)" % (F, k, w)
+                rec["confirmed_on_real_code"] = True
+                return True
+            n += 1
+    rec["confirmed_on_real_code"] = False
+    return False
+
+
 def units():
     lower = ["F::multiply / square / copy (field layer: C02, C04)", "Horner's rule (paper)"]
-    return [ScenUnit("exponentiate_restrict / exponentiate == a^power (every instantiation; loop cut)", ["C02", "C04", "C18"], gen_exponentiate, contracts_used=lower),
+    e = ScenUnit("exponentiate_restrict / exponentiate == a^power (every instantiation; loop cut)", ["C02", "C04", "C18"], gen_exponentiate, contracts_used=lower)
+    e.replay_hook = _replay_exponentiate
+    return [e,
             ScenUnit("field constants: Montgomery parameters, square-root and Legendre exponents, Tonelli-Shanks constants", ["C02", "C04"], gen_constants, contracts_used=["native constant dump vs reference primes"]),
             ScenUnit("Fp::legendre: exponent (p-1)/2 and the 0 / 1 / -1 mapping", ["C02"], gen_legendre, contracts_used=lower + ["Euler's criterion (textbook)"]),
             ScenUnit("Fq12::map_to_cyclotomic exponent", ["C04"], gen_cyclotomic, contracts_used=["Fq12 operations on discrete logs (C04)"])]
